@@ -18,6 +18,10 @@ import (
 	"time"
 
 	"github.com/anishathalye/porcupine"
+	"github.com/spf13/cobra"
+
+	"github.com/fatedier/frp/pkg/config"
+	v1 "github.com/fatedier/frp/pkg/config/v1"
 
 	"github.com/fatedier/frp/pkg/msg"
 
@@ -47,6 +51,9 @@ type world struct {
 	locks   map[string]*sync.Mutex
 	sig     []string
 	closed  bool
+
+	source   string // toml | legacy-ini | flag
+	spelling string
 
 	sawDeadAddr atomic.Bool
 }
@@ -122,13 +129,167 @@ userConnTimeout = 5
 allowPorts = [%s]
 `, w.bind, token, cfg.Quota, strings.Join(ents, ","))
 	c.Data["allow_ports"], c.Data["quota"], c.Data["bind_port"] = strings.Join(ents, ","), cfg.Quota, w.bind
-	srv, err := h.StartServerText(prop, text)
-	if err != nil {
-		giveBlock(w.block)
-		return nil, err
+	// the way the set reaches the server is part of the case: TOML entries, a legacy INI file, the --allow_ports flag
+	w.source = "toml"
+	switch x := rng.Intn(100); {
+	case x < 22:
+		w.source = "legacy-ini"
+	case x < 36:
+		w.source = "flag"
+	}
+	var srv *h.Server
+	var err error
+	if w.source != "toml" {
+		spelling, wellFormed := spellPorts(rng, list)
+		c.Data["allow_ports_source"], c.Data["allow_ports_spelling"] = w.source, spelling
+		w.spelling = spelling
+		srv, err = w.startFrom(spelling)
+		if err != nil {
+			// the loader may reject a spelling (the server does not start): not a verdict, the case runs from TOML
+			run.Count("spelling_rejected_"+w.source, 1)
+			if wellFormed {
+				// numbers, dashes, commas and blanks only, no empty item: the pinned tree accepts these
+				run.Inconclusive("well-formed allow_ports spelling rejected at start-up (" + w.source + ")")
+			}
+			c.Ev("spelling-rejected", "source", w.source, "spelling", spelling, "err", fmt.Sprint(err))
+			w.source, srv = "toml", nil
+		} else {
+			run.Count("spelling_accepted_"+w.source, 1)
+		}
+	}
+	if srv == nil {
+		srv, err = h.StartServerText(prop, text)
+		if err != nil {
+			giveBlock(w.block)
+			return nil, err
+		}
 	}
 	w.srv = srv
+	if w.source != "toml" && !w.precheck() {
+		w.close()
+		return nil, fmt.Errorf("allowPorts set of the started server differs from the configured one")
+	}
 	return w, nil
+}
+
+// spellPorts writes the logical set as an allow_ports string: runs as ranges (also split into adjacent or overlapping
+// ranges), singles as numbers or one-port ranges, a port repeated inside a range, any order, blanks around commas and
+// dashes, now and then a trailing comma.
+func spellPorts(rng *rand.Rand, list []int) (spelling string, wellFormed bool) {
+	var items [][2]int
+	for i := 0; i < len(list); {
+		j := i
+		for j+1 < len(list) && list[j+1] == list[j]+1 {
+			j++
+		}
+		a, b := list[i], list[j]
+		switch {
+		case b > a && rng.Intn(4) == 0: // adjacent ranges
+			m := a + rng.Intn(b-a)
+			items = append(items, [2]int{a, m}, [2]int{m + 1, b})
+		case b > a && rng.Intn(4) == 0: // overlapping ranges
+			m := a + rng.Intn(b-a+1)
+			n := a + rng.Intn(m-a+1)
+			items = append(items, [2]int{a, m}, [2]int{n, b})
+		default:
+			items = append(items, [2]int{a, b})
+		}
+		if rng.Intn(6) == 0 { // a port of the run once more
+			p := a + rng.Intn(b-a+1)
+			items = append(items, [2]int{p, p})
+		}
+		i = j + 1
+	}
+	rng.Shuffle(len(items), func(i, j int) { items[i], items[j] = items[j], items[i] })
+	blanks := rng.Intn(5) > 0
+	sp := func() string {
+		if !blanks {
+			return ""
+		}
+		return []string{"", " ", " ", "  ", "\t"}[rng.Intn(5)]
+	}
+	var sb strings.Builder
+	sb.WriteString(sp())
+	for i, it := range items {
+		if i > 0 {
+			sb.WriteString(sp() + "," + sp())
+		}
+		if it[0] == it[1] && rng.Intn(3) > 0 {
+			fmt.Fprintf(&sb, "%d", it[0])
+		} else {
+			fmt.Fprintf(&sb, "%d%s-%s%d", it[0], sp(), sp(), it[1])
+		}
+	}
+	wellFormed = true
+	if rng.Intn(12) == 0 {
+		sb.WriteString(sp() + ",")
+		wellFormed = false
+	}
+	sb.WriteString(sp())
+	return sb.String(), wellFormed
+}
+
+// startFrom starts frps with the allow list given as a string, through the repository's own legacy INI loader or its
+// own command line flag registration (as cmd/frps does).
+func (w *world) startFrom(spelling string) (*h.Server, error) {
+	if w.source == "legacy-ini" {
+		cfg, err := h.LoadServerConfig(prop, fmt.Sprintf("[common]\nbind_addr = 127.0.0.1\nbind_port = %d\ntoken = %s\nmax_ports_per_client = %d\nuser_conn_timeout = 5\nallow_ports = %s\n",
+			w.bind, token, w.quota, spelling))
+		if err != nil {
+			return nil, err
+		}
+		return h.StartServer(cfg)
+	}
+	cfg := &v1.ServerConfig{}
+	cmd := &cobra.Command{Use: "frps"}
+	config.RegisterServerConfigFlags(cmd, cfg)
+	cmd.SetGlobalNormalizationFunc(config.WordSepNormalizeFunc)
+	if err := cmd.ParseFlags([]string{"--bind_addr=127.0.0.1", "--proxy_bind_addr=127.0.0.1", fmt.Sprintf("--bind_port=%d", w.bind), "--token=" + token,
+		fmt.Sprintf("--max_ports_per_client=%d", w.quota), "--allow_ports=" + spelling}); err != nil {
+		return nil, err
+	}
+	cfg.Complete()
+	return h.StartServer(cfg)
+}
+
+// precheck decides, before anything else runs, whether an accepted spelling gave the server exactly the logical set:
+// every port of the block outside the set must be refused (tcp and udp), and the managers' free sets must be the set.
+// It also keeps a server that allows every port from handing out ports of other programs to server-chosen requests.
+func (w *world) precheck() bool {
+	c := w.c
+	ok := true
+	const s = 3000
+	for i, port := range w.outside {
+		proto := []string{"tcp", "udp"}[i%2]
+		name := fmt.Sprintf("%spre%d", w.pfx, i)
+		o := w.reg(s, name, proto, port, "", "")
+		if o.Unk {
+			return false
+		}
+		if o.OK {
+			ok = false
+			c.Violation("port-outside-allow-ports-granted-"+w.source, "server configured through %s with allow_ports %q (logical set %v): a %s proxy asking for port %d was acknowledged with :%d",
+				w.source, w.spelling, w.allowedList(), proto, port, o.Port)
+			w.closeP(s, name)
+		}
+	}
+	w.end(s)
+	snap := w.srv.Snapshot()
+	for _, ps := range []struct {
+		proto string
+		free  []int
+	}{{"tcp", snap.TCPPorts.Free}, {"udp", snap.UDPPorts.Free}} {
+		if fmt.Sprint(ps.free) != fmt.Sprint(w.allowedList()) {
+			ok = false
+			show := ps.free
+			if len(show) > 12 {
+				show = show[:12]
+			}
+			c.Violation("allow-ports-set-differs-from-configured-"+w.source, "server configured through %s with allow_ports %q: the %s port manager starts with %d free ports %v..., the logical set is %v",
+				w.source, w.spelling, ps.proto, len(ps.free), show, w.allowedList())
+		}
+	}
+	return ok
 }
 
 func (w *world) allowedList() []int {
@@ -280,6 +441,8 @@ func errClass(e string) string {
 		return "name-exists"
 	case strings.Contains(e, "port already used"):
 		return "port-used"
+	case strings.Contains(e, "must be in the range"):
+		return "port-out-of-range"
 	case strings.Contains(e, "port not allowed"):
 		return "port-not-allowed"
 	case strings.Contains(e, "port unavailable"):
